@@ -99,7 +99,10 @@ C12Fails(r) ==
   ELSE IF ch = {} THEN {"best-not-a-root-move"}
   ELSE LET c == CHOOSE f \in ch : TRUE IN
        (IF (\E f \in F : Mates(f)) /\ ~Mates(c) THEN {"missed-mate-in-1"} ELSE {})
-       \cup (IF (\E f \in F : Mates(f) \/ ForcesMate2(f)) /\ ~(Mates(c) \/ ForcesMate2(c)) THEN {"lost-forced-mate"} ELSE {})
+       \* "keeps a forced mate": the chosen move mates, or forces mate in two, or (keeps3, exhaustive analysis two
+       \* moves deeper by the harness) still leaves a forced mate of at most three moves - the engine may take a
+       \* longer road, it must not let the mate slip
+       \cup (IF (\E f \in F : Mates(f) \/ ForcesMate2(f)) /\ ~(Mates(c) \/ ForcesMate2(c) \/ r.keeps3) THEN {"lost-forced-mate"} ELSE {})
        \cup (IF (\E f \in F : Safe(f)) /\ ~Safe(c) THEN {"allowed-avoidable-mate-in-1"} ELSE {})
 C12Applies(r) ==
   LET F == {r.facts[i] : i \in 1..Len(r.facts)} IN
